@@ -786,7 +786,6 @@ func (interp *Interpreter) cfg(root *node, sc *scope, importPath, pkgName string
 						shadow := false
 						if n.anc != nil && n.anc.anc != nil && (hasForInit(n.anc.anc) || n.anc.anc.kind == rangeStmt) {
 							// check for redefine of for loop variables, which are now auto-defined in go1.22
-							init := n.anc.anc.child[0]
 							var fi *node // for ident
 							if hasForInit(n.anc.anc) {
 								for _, v := range forInitVars(n.anc.anc) {
@@ -794,14 +793,15 @@ func (interp *Interpreter) cfg(root *node, sc *scope, importPath, pkgName string
 										fi = v
 									}
 								}
-							} else { // range
-								fi = init
+							} else { // range: the key and the value variables
+								rn := n.anc.anc
+								for _, v := range rn.child[:len(rn.child)-2] {
+									if v.ident == dest.ident {
+										fi = v
+									}
+								}
 							}
 							if fi != nil && dest.ident == fi.ident {
-								if src.kind == identExpr && src.ident == dest.ident {
-									n.gen = nop
-									break
-								}
 								// A new variable, which shadows the per-iteration copy of the loop variable.
 								shadow = !sc.global
 							}
